@@ -96,6 +96,8 @@ V(o, env) == Eval(o, env)
 PatWord(v, sz) == CASE sz = "b" -> <<v, v, v, v>>
                     [] sz = "h" -> <<v \div 256, v % 256, v \div 256, v % 256>>
                     [] sz = "w" -> <<v \div 16777216, (v \div 65536) % 256, (v \div 256) % 256, v % 256>>
+Align512(n) == ((n + 511) \div 512) * 512          \* OTFAD images are encrypted in whole 512-byte blocks
+KeyBlobRecordSize == 64                              \* one record of the OTFAD key-blob table
 Expected(st, env) ==
   CASE st.s = "load_blob"   -> Cmd("load", V(st.addr, env), Len(st.blob), 0, st.mem, 0, -1, st.blob)
     [] st.s = "load_file"   -> Cmd("load", V(st.addr, env), Len(st.data), 0, st.mem, 0, -1, st.data)
@@ -111,9 +113,14 @@ Expected(st, env) ==
     [] st.s = "jump_sp"     -> Cmd("jump", V(st.addr, env), 0, 0, 0, V(st.arg, env), V(st.sp, env), <<>>)
     [] st.s = "reset"       -> Cmd("reset", 0, 0, 0, 0, 0, -1, <<>>)
     [] st.s = "version_check" -> Cmd("version_check", 0, 0, 0, 0, V(st.ver, env), st.nsec, <<>>)
+    \* encrypt / keywrap: one LOAD at the stated address; the data are crypto (OTFAD image encryption / RFC 3394 wrap of the key blob), so the
+    \* record carries, in place of the bytes, the id of the key blob the data belong to (field x) - the observer determines it independently by
+    \* decrypting / unwrapping the loaded bytes with every key blob the program defines
+    [] st.s = "encrypt"          -> Cmd("load", V(st.addr, env), Align512(Len(st.data)), 0, 0, st.kb, -1, <<>>)
+    [] st.s = "keywrap"          -> Cmd("load", V(st.addr, env), KeyBlobRecordSize, 0, 0, st.kb, -1, <<>>)
     [] st.s = "keystore_to_nv"   -> Cmd("keystore_to_nv", V(st.addr, env), 0, 0, st.mem, 0, -1, <<>>)
     [] st.s = "keystore_from_nv" -> Cmd("keystore_from_nv", V(st.addr, env), 0, 0, st.mem, 0, -1, <<>>)
-Operands(st) == CASE st.s \in {"load_blob", "load_file", "fill", "erase_addr", "enable", "keystore_to_nv", "keystore_from_nv"} -> {st.addr}
+Operands(st) == CASE st.s \in {"load_blob", "load_file", "fill", "erase_addr", "enable", "keystore_to_nv", "keystore_from_nv", "encrypt", "keywrap"} -> {st.addr}
                   [] st.s \in {"fill_range", "erase_range"} -> {st.lo, st.hi}
                   [] st.s \in {"call", "jump"} -> {st.addr, st.arg}
                   [] st.s = "jump_sp" -> {st.addr, st.arg, st.sp}
